@@ -4,6 +4,7 @@
 From Coq Require Import ZArith List Bool.
 From BV Require Import Lib.PyVal Gen.K_laxsem Model.LaxSem Proofs.LaxSemProofs.
 From BV Require Gen.G_pool_shape Model.Pool Proofs.PoolSup Proofs.PoolSem Gen.G_laxsem_atomic.
+From BV Require Model.PoolSys Proofs.PoolSysProofs.
 Import ListNotations.
 Open Scope Z_scope.
 
@@ -89,6 +90,33 @@ Theorem C10_slots_match_pool_size : forall c tr,
     /\ (LaxSem.pending (Pool.sem s) = 0 -> LaxSem.value (Pool.sem s) <= Pool.nprocs s).
 Proof. exact PoolSem.slots_match_size. Qed.
 Print Assumptions C10_slots_match_pool_size.
+
+(* conservation, for the closed system in which nothing goes wrong (Model/PoolSys.v: client,
+   task queue, pipe, workers, result pipe; see Props/C01.v): in every reachable state the free
+   slots plus the jobs in flight make up the bound, a job is in flight iff it is unresolved,
+   and when nothing can move any more every slot is free again.  (In the open model, with
+   worker deaths, conservation is refuted: known finding C10:more-slot-holders-than-slots.) *)
+Theorem C10_slots_account_for_jobs_in_flight : forall c n y,
+    1 <= Pool.c_n c -> PoolSysProofs.sreach c n y -> Pool.putlocks (PoolSys.par y) = true ->
+    LaxSem.value (Pool.sem (PoolSys.par y)) + Z.of_nat (length (PoolSys.tokens y))
+    = LaxSem.bound (Pool.sem (PoolSys.par y))
+    /\ 0 <= LaxSem.value (Pool.sem (PoolSys.par y)).
+Proof. exact PoolSysProofs.slots_account. Qed.
+Print Assumptions C10_slots_account_for_jobs_in_flight.
+
+Theorem C10_in_flight_iff_unresolved : forall c n y j,
+    1 <= Pool.c_n c -> PoolSysProofs.sreach c n y ->
+    count_occ Z.eq_dec (PoolSys.tokens y) j
+    = if PoolSysProofs.unres (PoolSys.par y) j then 1%nat else 0%nat.
+Proof. exact PoolSysProofs.in_flight_iff_unresolved. Qed.
+Print Assumptions C10_in_flight_iff_unresolved.
+
+Theorem C10_all_slots_back_at_the_end : forall c n sched y,
+    1 <= Pool.c_n c -> PoolSys.srun (PoolSys.sinit c n) sched = Some y ->
+    (forall a, PoolSys.sys_step y a = None) -> Pool.putlocks (PoolSys.par y) = true ->
+    LaxSem.value (Pool.sem (PoolSys.par y)) = LaxSem.bound (Pool.sem (PoolSys.par y)).
+Proof. exact PoolSysProofs.all_slots_back. Qed.
+Print Assumptions C10_all_slots_back_at_the_end.
 
 Example C10_witness :
   srun (sem_init 2) [Acquire; Acquire; Acquire; Release; Release; Release; ShrinkStart; ShrinkFinish; Grow; Clear]
